@@ -135,11 +135,13 @@ PROPS = {
     },
     "C20": {
         "level": "exploration",
-        "build": "plain",
-        "tiers": tiers(6000, 45, 150000, 900),
+        "build": "instr",
+        "tiers": tiers(7000, 45, 150000, 900, race=(600, 60, 20000, 600, ["breakersched"])),
         "rule": "world capacity: MaxFacts 1-6, histories of AddFact (given and generated ids), overwrites, RemFact, AddRule, property writes, reloads around the "
                 "boundary; after every successful public add StateSize <= MaxFacts; an add the model refuses for capacity leaves live state and storage "
                 "unchanged. Worlds breaker / throttle: fake-clock arrival patterns against OutboundBreaker and Throttle (see their entries). "
+                "World breakersched (instrumented build): 2-6 simulated callers share one breaker with an interval longer than the run, 1-3 Zap calls each, the token "
+                "scheduler switching at the breaker's lock operations with 0-4 seeded pre-emptions: exactly min(limit, calls) admissions; repeated in the race phase. "
                 "Non-trivial: an add was refused for capacity or a limiter refused a call; distinct = distinct (operation, canonical state) pairs.",
         "components": {"real": REAL + ["core.OutboundBreaker, core.Throttle"], "stub": STUB_COMMON},
         "assumptions": ["an overwrite at capacity may be admitted or refused (not judged)", "expired but not yet purged items may count towards the limit (not judged)"],
